@@ -23,7 +23,8 @@ RunClause(c, z, r) ==
   IF r.out # "ok" THEN "Raised"
   ELSE IF DOMAIN r.res # Nts(c.agp) THEN "EveryNonterminalHasAValue"
   ELSE IF \E X \in Nts(c.agp) : ~TensorEq(c.agp, X, r.res[X], z[r.sr][X]) THEN "ResultIndependentOfPresentation"
-  ELSE IF r.hasgrad /\ ~GradOK(c, r) THEN "GradientIndependentOfPresentation"
+  \* (no gradient claim when a weight is infinite: outside the dual-number carrier)
+  ELSE IF r.hasgrad /\ (\A t \in Terms(c.agp) : \A i \in DOMAIN c.agp.w[t] : c.agp.w[t][i] # INF) /\ ~GradOK(c, r) THEN "GradientIndependentOfPresentation"
   ELSE "ok"
 
 PermTuple(c, X, ea) == [i \in DOMAIN ea |-> c.perm[c.ag.els[X].type[i]][ea[i] + 1]]
